@@ -104,6 +104,12 @@ def h_cache(g):
                 "a cached database is used iff it was recorded for this GTF path with equal GTF mtime, DB mtime and complete_genedb flag")
         c = call(g, gtf2db.compare_stored_gtf, table, GTF, DB)
         g.check(IFF(c, ok), "compare_stored_gtf: recorded pair still has the recorded modification times")
+        # the database -> GTF direction (a pre-built .db is given): a recorded GTF may be reused only for the database it was made from
+        DB2 = "/d/copy_of_another.db"
+        ex[DB2], mt[DB2] = True, g.int("other_db_mtime_now", 0)
+        c2 = call(g, gtf2db.compare_stored_gtf, table, GTF, DB2)
+        g.check(NOT(c2), "a GTF recorded for one database is not handed out for a different database file (even with equal modification times)",
+                detail={"recorded_for": DB, "asked_for": DB2})
     finally:
         gtf2db.os = old
 
